@@ -23,6 +23,14 @@ def _(p):
     return f"{p['function']}: " + (explain(p["function"], call) if explain else f"property fails for {call}")
 
 
+@replay("c01_stream")
+def _(p):
+    from harness import parser_common as pc
+
+    v, d = pc.compare(p["symbols"], include_intercept=p["ii"], flags=tuple(p["flags"]), available=pc.AVAILABLE, tie_order=False)
+    return None if v in ("agree", "dontcare") else f"{v}: formula {' '.join(p['symbols'])!r}: {d}"
+
+
 @replay("c14_string")
 def _(p):
     from harness import ch_c14
@@ -30,7 +38,23 @@ def _(p):
     kw = {}
     if p.get("flags") is not None:
         kw = {"flags": tuple(p["flags"]), "include_intercept": bool(p.get("ii", True))}
-    c = ch_c14.classify(p["s"], **kw)
+    import signal
+
+    class _Slow(BaseException):
+        pass
+
+    def _alarm(*a):
+        raise _Slow()
+
+    old = signal.signal(signal.SIGALRM, _alarm)
+    signal.alarm(10)
+    try:
+        c = ch_c14.classify(p["s"], **kw)
+    except _Slow:
+        return f"no-verdict-within-10s: formula {p['s']!r} is neither parsed nor rejected"
+    finally:
+        signal.alarm(0)
+        signal.signal(signal.SIGALRM, old)
     return f"{c}: formula {p['s']!r}" + (f" ({kw})" if kw else "") if (c.startswith("escape") or (c == "python-syntax" and p.get("valid_python"))) else None
 
 
